@@ -455,6 +455,35 @@ def cache_probe(prog, sd, b):
     return bad
 
 
+def retry_after_failure(sd):
+    """as_bytes() raised: the same call repeated (and add(), which serialises too) must raise again --
+    or give a complete definition -- never hand out what the failed attempt left behind."""
+    out = []
+    for what in ('as_bytes', 'as_bytes', 'add', 'as_bytes'):
+        try:
+            if what == 'add':
+                sd.add()
+                SynthDescLib.get_lib('default').synth_descs.pop(sd.name, None)
+                out.append(['add', 'returned', None])
+            else:
+                r = sd.as_bytes()
+                out.append(['as_bytes', 'returned', bytes(r).hex()])
+        except Exception as e:
+            out.append([what, 'raised', type(e).__name__])
+        if _main.main._current_synthdef is not None:
+            _main.main._current_synthdef = None
+            out.append([what, 'leak', 'main._current_synthdef'])
+    return out
+
+
+# units with ordering side effects, by NAME (the property's own list: local buffer set-up, FFT chains,
+# random seeding) -- not by asking the library whether it treats them as width-first
+def orders_side_effects(u):
+    n = type(u).__name__
+    return isinstance(u, ugn.WidthFirstUGen) or n in ('LocalBuf', 'SetBuf', 'ClearBuf', 'FFT', 'IFFT', 'FFTTrigger',
+                                                      'RandSeed', 'RandID') or n.startswith('PV_')
+
+
 def run_case(prog):
     res = {'status': 'ok', 'exc': [], 'bytes': None, 'order': [], 'names3': [], 'desc': None,
            'desc_exc': None, 'base': None, 'nunits': 0}
@@ -471,8 +500,9 @@ def run_case(prog):
         except Exception as e:
             res['status'] = 'bytes_exc'
             res['exc'] = exc_chain(e)
+            res['retry'] = retry_after_failure(sd)
         res['nunits'] = len(sd._children)
-        res['order'] = [[getattr(u, '_c02_birth', -1), isinstance(u, ugn.WidthFirstUGen)] for u in sd._children]
+        res['order'] = [[getattr(u, '_c02_birth', -1), orders_side_effects(u)] for u in sd._children]
         res['names3'] = [[cn.name, cn.index, len(utl.as_list(cn.default_value))]
                          for cn in sd._all_control_names if cn.rate != 'noncontrol']
         CN_RATE = {'scalar': 0, 'trigger': 1, 'control': 1, 'audio': 2}
